@@ -20,9 +20,7 @@
 /* a configured pipeline instance: T buffers, all EMPTY and owned by the I/O thread, nothing loaded, not finished */
 #define WV_BG_EMPTY1(g, j) ((j) >= (g)->size || ((g)->ctrl[j].state == EMPTY && (g)->buflst[j].total == 0 && (g)->buflst[j].now == 0 && \
   (g)->buflst[j].tail == 0 && !(g)->buflst[j].isfinal))
-#define WV_BG_EMPTY(g) (WV_BG_EMPTY1(g, 0) && WV_BG_EMPTY1(g, 1) && WV_BG_EMPTY1(g, 2) && WV_BG_EMPTY1(g, 3) && WV_BG_EMPTY1(g, 4) && WV_BG_EMPTY1(g, 5) && \
-  WV_BG_EMPTY1(g, 6) && WV_BG_EMPTY1(g, 7) && WV_BG_EMPTY1(g, 8) && WV_BG_EMPTY1(g, 9) && WV_BG_EMPTY1(g, 10) && WV_BG_EMPTY1(g, 11) && \
-  WV_BG_EMPTY1(g, 12) && WV_BG_EMPTY1(g, 13) && WV_BG_EMPTY1(g, 14) && WV_BG_EMPTY1(g, 15))
+#define WV_BG_EMPTY(g) WV_FOLD16(WV_BG_EMPTY1, &&, g)
 #define WV_BG_CONFIGURED(g, T, fi, fo, pad) ((g)->size == (T) && (g)->fin == (fi) && (g)->fout == (fo) && (g)->ispadding == (pad) && (g)->turn == 0 && !(g)->over)
 
 buffergroup *buffergroup__get_instance(void)
@@ -154,8 +152,9 @@ __CPROVER_assigns();
 /* ---------------- decryption: gated by the verdict (C05, C06, C11, C12, C15) */
 bool runcrypt__execute_decrypt(runcrypt *this, size_t fsize)
 __CPROVER_requires(WV_RC_PTRS(this) && __CPROVER_is_fresh(this->out, sizeof(wv_FILE)) && WV_RC_CONS(this) && WV_GHOST_IN && WV_FRESH_STATE && wv_gi < 320 && !buffergroup__mtx.held)
-__CPROVER_requires(this->out->open && this->out->pos == this->out->len && this->out->len < (1ull << 50) && wv_wcount < (1ull << 60))
-__CPROVER_assigns(WV_VERIFY_STATE(this), this->fin->open, WV_FILE_WSTATE(this->out), this->aesfactory.iv, WV_ARR(this->crym.threads),
+__CPROVER_requires(this->out->open && this->out->pos == this->out->len && this->out->len < (1ull << 50) && wv_wcount < (1ull << 59) && this->out->nbytes < (1ull << 59) &&
+                   this->fin->len < (1ull << 50) && wv_pg < 16 && wv_gk < 16)
+__CPROVER_assigns(WV_VERIFY_STATE(this), this->fin->open, WV_FILE_WSTATE(this->out), this->aesfactory.iv, WV_ARR(this->crym.threads), wv_c, wv_b, wv_steps, wv_pl,
                   buffergroup__instance, buffergroup__mtx, bufferctrl__live_num)
 __CPROVER_ensures(wv_magic_ok == (this->fin->len >= 8 && WV_FIN_MAGIC(this)))
 __CPROVER_ensures((wv_magic_ok && this->fin->len >= 10) ==> (this->header.ctype == WV_FINB(this, 8) && this->header.htype == WV_FINB(this, 9)))
@@ -176,11 +175,11 @@ __CPROVER_ensures(WV_FRESH_STATE);
 #define WV_ENC_HDR (48 + 20ull * this->threads_num)
 bool runcrypt__execute_encrypt(runcrypt *this, size_t fsize, u8_t *r_buf)
 __CPROVER_requires(WV_RC_PTRS(this) && __CPROVER_is_fresh(this->out, sizeof(wv_FILE)) && WV_RC_CONS(this) && WV_FRESH_STATE && !buffergroup__mtx.held)
-__CPROVER_requires(WV_FILE_OK(this->fin) && this->fin->len < (1ull << 50) && this->out->open && this->out->pos == 0 && this->out->len == 0 && this->out->nwrites == 0 && this->out->nbytes == 0)
+__CPROVER_requires(WV_FILE_OK(this->fin) && !this->fin->eof && this->fin->len < (1ull << 50) && this->out->open && this->out->pos == 0 && this->out->len == 0 && this->out->nwrites == 0 && this->out->nbytes == 0)
 __CPROVER_requires((u8_t)this->settings.ctype <= 4 && (u8_t)this->settings.htype <= 2 && this->header.ctype == (u8_t)this->settings.ctype && this->header.htype == (u8_t)this->settings.htype)
 __CPROVER_requires(wv_slen < (1ull << 31) && __CPROVER_is_fresh(r_buf, wv_slen + 1) && r_buf[wv_slen] == 0)
-__CPROVER_requires(wv_g < 64 && wv_gr < 16 && wv_hl_n < (1ull << 40) && wv_wcount == 0)
-__CPROVER_assigns(this->fin->pos, this->fin->eof, this->fin->open, WV_FILE_WSTATE(this->out), this->aesfactory.iv, WV_ARR(this->crym.threads),
+__CPROVER_requires(wv_g < 64 && wv_gr < 16 && wv_hl_n < (1ull << 40) && wv_wcount == 0 && wv_pg < 16 && wv_gk < 16)
+__CPROVER_assigns(this->fin->pos, this->fin->eof, this->fin->open, WV_FILE_WSTATE(this->out), this->aesfactory.iv, WV_ARR(this->crym.threads), wv_c, wv_b, wv_steps, wv_pl,
                   this->hmachandle.length, this->hmachandle.hmac_res, this->hmachandle.buf, WV_HMAC_GHOSTS, wv_tagv,
                   buffergroup__instance, buffergroup__mtx, bufferctrl__live_num)
 __CPROVER_ensures(__CPROVER_return_value)
